@@ -8,6 +8,9 @@ MAPPER = 'rip_provider_openresponses::EventFrameMapper::'
 PIPE = 'ripd::session::OpenResponsesSsePipe::'
 
 
+PIPE_ADT = 'ripd::session::OpenResponsesSsePipe'
+
+
 def field_names(projs):
     return [pp.get('n') for pp in projs if isinstance(pp, dict) and 'f' in pp]
 
@@ -92,13 +95,41 @@ def run(ctx):
                     a1 = f.origin(rvv['a'][1])
                     n0 = field_names(a0[2]) if a0[0] == 'local' else []
                     n1 = field_names(a1[2]) if a1[0] == 'local' else []
-                    if 'seq' in n0 and 'seq_offset' in n1 and any(isinstance(pp, dict) and pp.get('o') == 'rip_kernel::Event' for pp in a0[2]):
+                    is_ev_seq = 'seq' in n0 and any(isinstance(pp, dict) and pp.get('o') == 'rip_kernel::Event' for pp in a0[2])
+                    if is_ev_seq and ('seq_offset' in n1 or 'seq_offset' in fields_read(f, rvv['a'][1], PIPE_ADT)):
                         off.append((bi, st.get('ln')))
                     if 'seq' in n0 and 'seq_offset' not in n1 and not any(isinstance(pp, dict) and pp.get('o') == 'rip_kernel::Event' for pp in a0[2]):
                         srcs = sources(f, rvv['a'][1])
                         if any(x[0] == 'call' and x[1].endswith('::len') for x in srcs):
                             adv.append((bi, st.get('ln')))
-        ctx.ob('C15.2', f, 'offset-added', len(off) == 1 and f.in_loop(off[0][0]) and any(f.can_reach(m.bb, off[0][0]) for _ in [0]) and all(f.can_reach(off[0][0], e.bb) for e in emits),
+        ok_off = len(off) == 1 and f.in_loop(off[0][0]) and f.can_reach(m.bb, off[0][0]) and all(f.can_reach(off[0][0], e.bb) for e in emits)
+        if not off:
+            # iterator form: frames.iter_mut().for_each(|frame| frame.seq += offset) with the captured offset read from self.seq_offset
+            for fe in f.calls(r'Iterator::for_each$|::for_each$'):
+                if not (f.can_reach(m.bb, fe.bb) and all(f.can_reach(fe.bb, e.bb) for e in emits) and not f.in_loop(fe.bb)):
+                    continue
+                o = f.origin(fe.args[1]) if len(fe.args) > 1 else None
+                if not (o and o[0] == 'rv' and o[1].get('ak') == 'closure' and o[1].get('def') in P.fns):
+                    continue
+                cf = P.fns[o[1]['def']]
+                caps = o[1]['a']
+                hit = False
+                for bi2 in cf.reachable():
+                    for st2 in cf.blocks[bi2]['s']:
+                        r2 = st2.get('rv')
+                        if r2 and r2['k'] == 'bin' and r2['op'].startswith('Add'):
+                            b0 = cf.origin(r2['a'][0])
+                            if b0[0] == 'local' and 'seq' in field_names(b0[2]) and any(isinstance(pp, dict) and pp.get('o') == 'rip_kernel::Event' for pp in b0[2]):
+                                b1 = cf.origin(r2['a'][1])
+                                # the other operand is an upvar: field i of the closure environment (local 1)
+                                if b1[0] == 'local' and b1[1] == 1:
+                                    idxs = [pp['f'] for pp in b1[2] if isinstance(pp, dict) and 'f' in pp]
+                                    if idxs and idxs[0] < len(caps) and 'seq_offset' in fields_read(f, caps[idxs[0]], PIPE_ADT):
+                                        hit = True
+                if hit:
+                    off.append((fe.bb, fe.line))
+                    ok_off = True
+        ctx.ob('C15.2', f, 'offset-added', ok_off,
                'every mapped frame gets seq += self.seq_offset before emission (%d site)' % len(off), line=off[0][1] if off else f.line)
         okadv = len(adv) == 1 and not f.in_loop(adv[0][0]) and all(f.dom(e.bb, adv[0][0]) for e in emits)
         ctx.ob('C15.2', f, 'advance-by-count', okadv, '*self.seq is advanced once by the frame count, after emit_all (%d site)' % len(adv), line=adv[0][1] if adv else f.line)
